@@ -1815,6 +1815,104 @@ def comp_axisnorm(prop, tier, comp, work):
     return out
 
 
+def _axis_normalised(expr, locs, by_line, file, depth=0):
+    """is the expression passed as an axis argument visibly normalised? (name, normalize_axis, or a `< 0 ? x + n : x` form,
+    followed through single-definition locals and immediately-invoked lambdas)"""
+    if depth > 4:
+        return False
+    if "normaliz" in expr or "normalize_axis" in expr or re.search(r"< 0\) \?|>= 0\) \?", expr):
+        return True
+    m = re.fullmatch(r"%(\w+)", expr.strip())
+    if m and m.group(1) in locs:
+        return _axis_normalised(locs[m.group(1)], locs, by_line, file, depth + 1)
+    ml = re.fullmatch(r"lambda@(\d+)\(\)", expr.strip())
+    if ml and (file, int(ml.group(1))) in by_line:
+        lam = by_line[(file, int(ml.group(1)))]
+        llocs = {f["a"]: f["b"] for f in lam["facts"] if f["k"] == "local"}
+        return any(_axis_normalised(x["a"], llocs, by_line, file, depth + 1) for x in lam["facts"] if x["k"] == "return")
+    return False
+
+
+def rule_axisnorm_callers(rows, prop, scope_substr):
+    """R-AXISNORM.caller: an index-level function that compares a position with its own raw `axis` parameter (loop bound or
+    equality) REQUIRES a normalised axis; the obligation moves to its callers, transitively through functions that merely hand
+    their own axis parameter on. Every other call site must pass a visibly normalised value."""
+    fns = [r for r in rows if "fn" in r and scope_substr in r["file"]]
+    by_line = {(r["file"], r["line"]): r for r in fns}
+    short = lambda name: re.sub(r"<.*$", "", name).split("::")[-1]
+    # 1. raw consumers: position compared with $axis in a loop / if / expression, no own `< 0` handling
+    requires = {}   # short function name -> index of the axis parameter
+    for r in fns:
+        if r.get("lambda"):
+            continue
+        params = r.get("params", [])
+        alltxt = " ".join((f.get("a", "") + " " + str(f.get("b", ""))) for f in r["facts"])
+        for i, prm in enumerate(params):
+            pn = prm if isinstance(prm, str) else prm.get("name", "")
+            if not re.fullmatch(r"ax[ie]s\w*", pn or ""):
+                continue
+            if re.search(r"\(%\w+ (<=|<|==|>=|>) \$" + pn + r"\)|\(\$" + pn + r" (<=|<|==|>=|>) %\w+\)", alltxt) and not re.search(r"\(\$" + pn + r" < 0\)|normalize_axis\(\$" + pn, alltxt):
+                requires[short(r["fn"])] = i
+    changed = True
+    while changed:
+        changed = False
+        for r in fns:
+            if r.get("lambda") or short(r["fn"]) in requires:
+                continue
+            params = [(prm if isinstance(prm, str) else prm.get("name", "")) for prm in r.get("params", [])]
+            for f in r["facts"]:
+                if f["k"] != "call" or short(f["a"]) not in requires:
+                    continue
+                pc = parse_call(f["b"])
+                if not pc or len(pc[1]) <= requires[short(f["a"])]:
+                    continue
+                a = pc[1][requires[short(f["a"])]].strip()
+                if a.startswith("$") and a[1:] in params:
+                    requires[short(r["fn"])] = params.index(a[1:]); changed = True
+    # 2. every remaining call site must pass a normalised value
+    findings, n, samples = [], 0, []
+    for r in fns:
+        params = [(prm if isinstance(prm, str) else prm.get("name", "")) for prm in r.get("params", [])]
+        locs = {f["a"]: f["b"] for f in r["facts"] if f["k"] == "local"}
+        seen = set()
+        for f in r["facts"]:
+            if f["k"] != "call" or short(f["a"]) not in requires:
+                continue
+            pc = parse_call(f["b"])
+            if not pc or len(pc[1]) <= requires[short(f["a"])]:
+                continue
+            a = pc[1][requires[short(f["a"])]].strip()
+            if a.startswith("$") and a[1:] in params and short(r["fn"]) in requires:
+                continue   # handed on: the obligation is the caller's
+            if (f["b"]) in seen:
+                continue
+            seen.add(f["b"]); n += 1
+            if _axis_normalised(a, locs, by_line, r["file"]):
+                if len(samples) < 3:
+                    samples.append("R-AXISNORM.caller %s passes %s" % (short(r["fn"]), a))
+            else:
+                findings.append(finding("R-AXISNORM.caller", prop, r, f["b"][:200],
+                    "%s compares positions with its raw axis parameter, so it needs a normalised axis; this call passes %s, which is the "
+                    "caller's axis as given (a negative axis other than a special-cased value reaches the index function unnormalised)" % (short(f["a"]), a), f.get("line")))
+    return findings, n, samples, sorted(requires)
+
+
+def comp_axisnorm_simd(prop, tier, comp, work):
+    t0 = time.time()
+    tu = os.path.join(work, "umb_simd_axis.cpp")
+    open(tu, "w").write('#include "nmtools/array/eval/simd/x86_avx.hpp"\n')
+    rows, err, cmd = run_nmlint(tu, filters=["include/nmtools/array/eval/simd/"], flags=["-mavx2", "-mfma"])
+    out = dict(broken=[], units=1, functions=len(rows), cmd=cmd)
+    if err:
+        out["broken"].append(err); return out
+    f, inst, samples, req = rule_axisnorm_callers(rows, prop, "include/nmtools/array/eval/simd/")
+    if not req:
+        out["broken"].append("R-AXISNORM.caller: no index function with a raw axis comparison found under eval/simd (anchor vanished)")
+    out.update(findings=f, instances={"R-AXISNORM.caller": inst}, evaluations=inst, distinct_nontrivial=inst - len(f),
+               samples=samples + ["requires a normalised axis: " + ", ".join(req)], wall_s=round(time.time() - t0, 2))
+    return out
+
+
 # --------------------------------------------------------------------------------------------
 # driver
 # --------------------------------------------------------------------------------------------
@@ -1855,4 +1953,4 @@ def comp_fwd_array(prop, tier, comp, work):
     return out
 
 
-RULES = {"R-FWD.array": comp_fwd_array, "R-FWD.functional": comp_fwd_functional, "R-UFUNC": comp_ufunc, "R-KSIB": comp_ksib, "R-SIMD": comp_simd, "R-CONSTBRANCH": comp_constbranch, "R-TRAITPROV": comp_traitprov, "R-MAYBE-DIV": comp_maybe_div, "R-OWN": comp_own, "R-EVAL": comp_eval, "R-EQSHAPE": comp_eqshape, "R-PAIR": comp_pair, "R-FOLD": comp_fold, "R-MEMCOPY": comp_memcopy, "R-AXISNORM": comp_axisnorm}
+RULES = {"R-FWD.array": comp_fwd_array, "R-FWD.functional": comp_fwd_functional, "R-UFUNC": comp_ufunc, "R-KSIB": comp_ksib, "R-SIMD": comp_simd, "R-CONSTBRANCH": comp_constbranch, "R-TRAITPROV": comp_traitprov, "R-MAYBE-DIV": comp_maybe_div, "R-OWN": comp_own, "R-EVAL": comp_eval, "R-EQSHAPE": comp_eqshape, "R-PAIR": comp_pair, "R-FOLD": comp_fold, "R-MEMCOPY": comp_memcopy, "R-AXISNORM": comp_axisnorm, "R-AXISNORM.simd": comp_axisnorm_simd}
